@@ -345,3 +345,41 @@ package operationparser
 //@   ensures [deactivate] sizeOK && terr == nil && typ == operation.TypeDeactivate ==> (err == nil) == (d.err == nil) && (err == nil ==> cm == "")
 //@   ensures [recover] sizeOK && terr == nil && typ == operation.TypeRecover && r.err == nil ==> err == nil &&
 //@        cm == p.ParseSignedDataForRecover(old(r.op.SignedData)).sd.RecoveryCommitment
+
+// ---------------------------------------------------------------------------
+// C17: long-form DIDs
+
+// the text of a long-form DID after its last delimiter: the initial state
+//@ spec func initialStateOf(did string) string = did[strings.LastIndex(did, ":")+1:]
+
+// an initial state is acceptable exactly when it is base64url text (unpadded: the decoder refuses
+// padding), the decoded bytes are a JSON create request, and encoding the canonical form of that
+// request gives back the very same text (no other spelling of the same request is an initial state);
+// the request may leave out its type (the Sidetree long-form format) but may not name another one
+//@ spec func initialStateOK(s string) bool =
+//@   b64ok(s) &&
+//@   jsonDecodeErr(unb64(s), model.CreateRequest) == nil &&
+//@   canonicalizer.MarshalCanonical(any(jsonDecode(unb64(s), model.CreateRequest))).1 == nil &&
+//@   b64(string(canonicalizer.MarshalCanonical(any(jsonDecode(unb64(s), model.CreateRequest))).0)) == s &&
+//@   (jsonDecode(unb64(s), model.CreateRequest).Operation == "" || jsonDecode(unb64(s), model.CreateRequest).Operation == operation.TypeCreate)
+
+//@ func parseInitialState(initialState) (ret, err)
+//@   modifies nothing
+//@   ensures [atomic] (err != nil ==> ret == nil) && (err == nil ==> ret != nil && fresh(ret))
+// (old: the canonical form is the one of the request as decoded, before this function tags it as a create operation)
+//@   ensures [iff] (err == nil) == old(initialStateOK(initialState))
+//@   ensures [value] err == nil ==> deref(ret).SuffixData == jsonDecode(unb64(initialState), model.CreateRequest).SuffixData &&
+//@                                deref(ret).Delta == jsonDecode(unb64(initialState), model.CreateRequest).Delta &&
+//@                                deref(ret).Operation == operation.TypeCreate
+
+//@ func (p *Parser) ParseDID(namespace, shortOrLongFormDID) (did, req, err)
+//@   modifies nothing
+// no delimiter is left once the namespace is taken away: a short-form DID, returned as it is
+//@   ensures [short-form] strings.Index(strings.ReplaceAll(shortOrLongFormDID, namespace + ":", ""), ":") == -1 ==>
+//@                         err == nil && req == nil && did == shortOrLongFormDID
+// otherwise the text after the last delimiter must be an acceptable initial state, and the DID in
+// front of it is returned
+//@   ensures [long-form] strings.Index(strings.ReplaceAll(shortOrLongFormDID, namespace + ":", ""), ":") != -1 ==>
+//@                         (err == nil ==> old(initialStateOK(initialStateOf(shortOrLongFormDID))))
+//@   ensures [split] strings.Index(strings.ReplaceAll(shortOrLongFormDID, namespace + ":", ""), ":") != -1 && err == nil ==>
+//@                         did == shortOrLongFormDID[0:strings.LastIndex(shortOrLongFormDID, ":")]
